@@ -44,6 +44,7 @@ StepClauses ==
     C16_Once |-> Site \in DOMAIN S.open /\ d \in SToSet(S.open[Site]),
     C17_NeverZeroSite |-> ReactPos(K, d) /\ SitePopOK,
     C16_Complementary |-> p \in Compl(K, d) /\ Complementary(K, [links |-> <<[d |-> d, p |-> p]>>]),
+    C16_BondOrder |-> Ev.o2 = 2 * d[3] /\ Ev.o2 = 2 * p[3],        \* the new bond has the order of the two descriptors it joins
     C17_NeverZeroPartner |-> CondPos(K, d, p) /\ PartnerPopOK,
     C16_PartnerOnFragment |-> Ev.f \in DOMAIN K.frags /\ Ev.t \in DOMAIN K.frags[Ev.f].desc /\ p \in SToSet(K.frags[Ev.f].desc[Ev.t]) ]
 FailedNow(c) == {n \in DOMAIN c : ~c[n]}
